@@ -583,6 +583,10 @@ func (x *Exec) newRef(st *State, hint string) *Term {
 	st.allocs = append(st.allocs, r)
 	st.setClass(r, refFresh)
 	x.setRoot(r, r.S)
+	if x.rootNum == nil {
+		x.rootNum = map[string]int{}
+	}
+	x.rootNum[r.S] = x.allocCount
 	return r
 }
 
@@ -716,6 +720,9 @@ func (x *Exec) nameTerm(st *State, t *Term, hint string) *Term {
 	}
 	if rt, ok := x.refRoot[t.S]; ok {
 		x.setRoot(c, rt)
+	}
+	if ub, ok := x.refUB[t.S]; ok {
+		x.noteUB(c, ub)
 	}
 	return c
 }
